@@ -82,6 +82,8 @@ class AlgebraicReductionRule(AbstractNaryRule):
                     new_ops = rule.apply(left, right)
                 except NoReduction:
                     continue
+                # a rule may produce identity operators: they are discarded, like the initial ones
+                new_ops = [op for op in new_ops if not isinstance(op, IdentityOperator)]
                 operands[index : index + 2] = new_ops
 
                 # if the rule produces a HomothetyOperator, we deal with it first
